@@ -315,7 +315,21 @@ func zzC04Actuals(sh zzC04Shape, nargs int, vals int) List {
 		case kind <= sh.nkey:
 			args = append(args, Symbol(":"+zzC04Name("k", kind-1)))
 		case kind == sh.nkey+1:
-			args = append(args, Symbol(":zz"))
+			// a keyword that names no &key parameter: a fresh name, or the name of another
+			// variable of the lambda list (an &aux variable, a required or an &optional parameter)
+			unknown := []string{":zz"}
+			if 0 < sh.nkey {
+				if 0 < sh.naux {
+					unknown = append(unknown, ":"+zzC04Name("x", 0))
+				}
+				if 0 < sh.nreq {
+					unknown = append(unknown, ":"+zzC04Name("r", 0))
+				}
+				if 0 < sh.nopt {
+					unknown = append(unknown, ":"+zzC04Name("o", 0))
+				}
+			}
+			args = append(args, Symbol(unknown[vrt.Choice(zzC04Name("u", i), len(unknown))]))
 		case kind == sh.nkey+2:
 			args = append(args, nil)
 		default:
@@ -397,8 +411,16 @@ func VerifC04Bind(nreq, nopt, optdef, rest, nkey, keydef, allow, naux, nargs, ou
 
 func zzC04HasUnknown(sh zzC04Shape, args List) bool {
 	for j := sh.nreq + sh.nopt; j < len(args); j += 2 {
-		if kn, ok := zzC04KeyName(args[j]); ok && kn == "zz" {
-			return true
+		if kn, ok := zzC04KeyName(args[j]); ok {
+			own := false
+			for k := 0; k < sh.nkey; k++ {
+				if kn == zzC04Name("k", k) {
+					own = true
+				}
+			}
+			if !own {
+				return true
+			}
 		}
 	}
 	return false
